@@ -102,16 +102,14 @@ def custom_stmt(gen, st, s):
         st.g["pos"] = z3.Store(st.g["pos"], st.g["i"], ln)
         st.trace.append("append")
         return [st]
-    # if isbox(arg):   /  elif trace == top_trace: handled by the generic If via `cond` below (we only need isbox)
-    if isinstance(s, ast.If) and isinstance(s.test, ast.Call) and isinstance(s.test.func, ast.Name) and s.test.func.id == "isbox" and len(s.test.args) == 1:
-        ob = gen.expr(s.test.args[0], st)
-        c = isbox(ob[1])
-        a, b = st, st.copy()
-        a.pc.append(c)
-        b.pc.append(z3.Not(c))
-        a.trace.append("isbox")
-        b.trace.append("not-isbox")
-        return gen.block(s.body, a) + gen.block(s.orelse, b)
+    return None
+
+
+def custom_cond(gen, st, e):
+    """isbox(<object>) as an atom of any condition (`if isbox(a):`, `if not isbox(a): continue`, `isbox(a) and ...`)"""
+    if isinstance(e, ast.Call) and isinstance(e.func, ast.Name) and e.func.id == "isbox" and len(e.args) == 1:
+        ob = gen.expr(e.args[0], st)
+        return isbox(ob[1])
     return None
 
 
